@@ -29,6 +29,25 @@ def handle : List String → String
       let pkt := Spec.serverSeal prims key ⟨salt, sid, mid, seq, body⟩ pad
       s!"pkt={showB pkt} " ++ showOutcome showMsg (openClient prims key pkt)
     | _, _, _, _, _, _, _ => "bad-op"
+  -- the same server packet through transport.ReadMsg (after the framing layer)
+  | ["c03.route", key, salt, sid, mid, seq, body, pad] =>
+    match parseTok? key, salt.toNat?, sid.toNat?, mid.toNat?, seq.toNat?, parseTok? body, parseTok? pad with
+    | some key, some salt, some sid, some mid, some seq, some body, some pad =>
+      showRouted (route prims key (Spec.serverSeal prims key ⟨salt, sid, mid, seq, body⟩ pad))
+    | _, _, _, _, _, _, _ => "bad-op"
+  -- an unencrypted server message through transport.ReadMsg
+  | ["c03.uroute", mid, body] =>
+    match mid.toNat?, parseTok? body with
+    | some mid, some body => showRouted (route prims [] (Unenc.serialize mid body))
+    | _, _ => "bad-op"
+  -- several clients sealing/opening at the same time: an operation about the schedule, not about a
+  -- function's value; the model's calls do not share anything, so each client's packets are what
+  -- `sealClient`/`openClient` give one by one — the line the Go side prints when that is so
+  | ["c03.par", clients, rounds, seed, maxLen] =>
+    match clients.toNat?, rounds.toNat?, seed.toNat?, maxLen.toNat? with
+    | some c, some r, some _, some _ =>
+      if c = 0 ∨ r = 0 then "bad-op" else s!"par ok clients={c} messages={c * r}"
+    | _, _, _, _ => "bad-op"
   -- generateAESIGE
   | ["c03.kdf", x, mk, ak] =>
     match parseTok? mk, parseTok? ak with
